@@ -9,6 +9,9 @@ From WH.Model Require Import GenotypeIndex.
 Import ListNotations.
 Open Scope Z_scope.
 
+Lemma ideal_id z : ideal z = z.
+Proof. reflexivity. Qed.
+
 (* ---- choose *)
 Lemma choose_0_r n : choose n 0 = 1.
 Proof. destruct n; reflexivity. Qed.
